@@ -292,7 +292,12 @@ impl Prop for P {
         crate::common::xcount("c15_build_after_failed_build");
         let f = fst::raw::Fst::new(bytes.clone()).unwrap();
         let kvs = f.stream().into_byte_vec();
-        format!("S:r=ok;c={};len={}\tM:bytes={};bw=na;st=na\tX:{}", fmt_kvs(&kvs), f.len(), hex(&bytes), x)
+        // E: evictions of this build under the default cache (see core::exec_build_case)
+        let e = match exec_build("extend", "raw_loop", ty, drows(), dcols(), &ops).stats {
+            Some(s) => s[2].to_string(),
+            None => "na".into(),
+        };
+        format!("S:r=ok;c={};len={}\tM:bytes={};bw=na;st=na\tX:{}\tE:{}", fmt_kvs(&kvs), f.len(), hex(&bytes), x, e)
     }
     fn extras(&self, _tier: Tier, rng: &mut Rng, _stats: &mut Stats) -> Vec<(String, bool, String)> {
         // separate processes: re-run a sample of cases in three child processes and compare the result lines
